@@ -19,7 +19,7 @@ export PEGSIM_SHM="$SHM"
 T0=$(date +%s)
 
 # 1. scratch copy of the repository's working tree, seams inserted mechanically
-rsync -a --exclude .git /repo/ "$SCR/repo/" || exit 2
+rsync -a --exclude .git "${VERIF_REPO:-/repo}/" "$SCR/repo/" || exit 2   # VERIF_REPO: development aid (mutants in a scratch copy)
 if [ ! -x "$VERIF/bin/pegsim-instrument" ] || [ "$VERIF/instrument/main.go" -nt "$VERIF/bin/pegsim-instrument" ]; then
   mkdir -p "$VERIF/bin"
   ( cd $VERIF/instrument && $GO build -o "$VERIF/bin/pegsim-instrument" . ) > "$SCR/instrument-build.log" 2>&1 || { echo "cannot build pegsim-instrument:"; tail -20 "$SCR/instrument-build.log"; exit 2; }
